@@ -3,6 +3,8 @@ package main
 // Translation of specification expressions into SMT terms in a given program state.
 
 import (
+	"os"
+	"runtime/debug"
 	"fmt"
 	"go/constant"
 	"go/types"
@@ -46,7 +48,12 @@ type specErr struct{ msg string }
 
 func (e specErr) Error() string { return "specification error: " + e.msg }
 
-func sfail(f string, a ...interface{}) { panic(specErr{fmt.Sprintf(f, a...)}) }
+func sfail(f string, a ...interface{}) {
+	if os.Getenv("GOCV_TRACE") != "" {
+		debug.PrintStack()
+	}
+	panic(specErr{fmt.Sprintf(f, a...)})
+}
 
 func (ex *Exec) envFor(fr *Frame, st *State) *SpecEnv {
 	env := &SpecEnv{ex: ex, fr: fr, st: st, old: fr.entry, prevSt: fr.prevSt, vars: map[string]Value{}, pkg: fnPkg(fr.fn)}
